@@ -173,6 +173,34 @@ func TestVerif_C11_Derivations(t *testing.T) {
 				fail("export-import-identity", "export of the importing store differs from the original export")
 			}
 		}
+		// a multi-member group whose identifier is the account key of a contact (the owner of that key can issue such an
+		// invitation): the member key is the one derived for the group, whether or not the contact is already known
+		{
+			skj, err := accs[1].s.GetAccountPrivateKey()
+			if err != nil {
+				rt.Fatalf("harness: %v", err)
+			}
+			sec := make([]byte, 32)
+			_, _ = crand.Read(sec)
+			sig, _ := skj.Sign(sec)
+			named := &protocoltypes.Group{PublicKey: vRaw(skj.GetPublic()), Secret: sec, SecretSig: sig, GroupType: protocoltypes.GroupType_GroupTypeMultiMember}
+			if _, err := accs[0].s.GetGroupForContact(accs[1].account()); err != nil {
+				rt.Fatalf("harness: %v", err)
+			}
+			fresh := vSecondDevice("A0-fresh", accs[0], 4, 4) // a device of the same account that never dealt with the contact
+			ma, e1 := accs[0].s.GetOwnMemberDeviceForGroup(named)
+			mb, e2 := fresh.s.GetOwnMemberDeviceForGroup(named)
+			if e1 != nil || e2 != nil {
+				fail("member-device-error", "GetOwnMemberDeviceForGroup for a group named after a contact's key: %v %v", e1, e2)
+			}
+			if !ma.Member().Equals(mb.Member()) {
+				fail("member-key-differs-across-devices", "a group whose identifier is a contact's account key: the device that knows the contact and a fresh device of the same account derive different member keys")
+			}
+			cg, _ := accs[0].s.GetGroupForContact(accs[1].account())
+			if sk, err := cg.GetSigningPrivKey(); err == nil && ma.Member().Equals(sk.GetPublic()) {
+				fail("member-key-collision", "the member key in a group named after a contact's key is a key of the contact group")
+			}
+		}
 		acct.Case(true, fmt.Sprintf("%d|%v", nAcc, uses), func() any {
 			return map[string]any{"kind": "derivations", "accounts": nAcc, "first_uses": trace}
 		}, "derive", lbl(len(uses) > 0, "derive/first-use-before-import"))
